@@ -25,33 +25,33 @@ import (
 
 const simPool = 1 << 13
 
-func ppool() *verifsim.Pool { return verifsim.NewPool("peer", simPool) }
+func ppool() *verifsim.Pool  { return verifsim.NewPool("peer", simPool) }
 func kpoolS() *verifsim.Pool { return verifsim.NewPool("key", simPool) }
 
 type lkPeer struct {
-	ID     int    `json:"id"`               // peer pool index
-	Dial   string `json:"dial,omitempty"`   // "" = ok | fail | hang
+	ID     int    `json:"id"`             // peer pool index
+	Dial   string `json:"dial,omitempty"` // "" = ok | fail | hang
 	DialMs int    `json:"dial_ms,omitempty"`
-	Req    string `json:"req,omitempty"`    // "" = ok | fail | silent
+	Req    string `json:"req,omitempty"` // "" = ok | fail | silent
 	LatMs  int    `json:"lat_ms"`
-	Knows  []int  `json:"knows"`            // indices into Peers; -1 = the local node; <= -2 = unknown peer number -(x+2)
-	Raw    bool   `json:"raw,omitempty"`    // answer with the raw list instead of the K nearest of it
-	Group  int    `json:"group"`            // IP group (/16); -1 = no address
-	Priv   bool   `json:"priv,omitempty"`   // address of the class the query filter rejects
-	Val    int    `json:"val,omitempty"`    // GET_VALUE: 0 none; 1..9 valid record of that rank; -1 invalid; -2 record for another key; -3 empty value; -4 malformed value
-	Provs  []int  `json:"provs,omitempty"`  // GET_PROVIDERS: provider refs (as Knows)
+	Knows  []int  `json:"knows"`             // indices into Peers; -1 = the local node; <= -2 = unknown peer number -(x+2)
+	Raw    bool   `json:"raw,omitempty"`     // answer with the raw list instead of the K nearest of it
+	Group  int    `json:"group"`             // IP group (/16); -1 = no address
+	Priv   bool   `json:"priv,omitempty"`    // address of the class the query filter rejects
+	Val    int    `json:"val,omitempty"`     // GET_VALUE: 0 none; 1..9 valid record of that rank; -1 invalid; -2 record for another key; -3 empty value; -4 malformed value
+	Provs  []int  `json:"provs,omitempty"`   // GET_PROVIDERS: provider refs (as Knows)
 	PNoAdr bool   `json:"pnoaddr,omitempty"` // providers listed without addresses
-	Put    string `json:"put,omitempty"`    // PUT_VALUE / ADD_PROVIDER treatment: "" ok | fail | hang
+	Put    string `json:"put,omitempty"`     // PUT_VALUE / ADD_PROVIDER treatment: "" ok | fail | hang
 }
 
 type lkSc struct {
 	K        int      `json:"k"`
 	Alpha    int      `json:"alpha"`
 	Beta     int      `json:"beta"`
-	KeyKind  int      `json:"key_kind,omitempty"`  // 0: multihash from the key pool; 2: value key "/v/k<Key>"
-	Key      int      `json:"key"`                 // key pool index
-	KeyPeer  int      `json:"key_peer,omitempty"`  // >0: the key is the id of Peers[KeyPeer-1] (FindPeer-style target)
-	Self     int      `json:"self"`                // peer pool index of the local node
+	KeyKind  int      `json:"key_kind,omitempty"` // 0: multihash from the key pool; 2: value key "/v/k<Key>"
+	Key      int      `json:"key"`                // key pool index
+	KeyPeer  int      `json:"key_peer,omitempty"` // >0: the key is the id of Peers[KeyPeer-1] (FindPeer-style target)
+	Self     int      `json:"self"`               // peer pool index of the local node
 	Peers    []lkPeer `json:"peers"`
 	Seeds    []int    `json:"seeds"`               // indices into Peers
 	Filter   bool     `json:"filter,omitempty"`    // query filter installed
